@@ -26,7 +26,7 @@ RULE = (
     "no-merge run over all sequences up to a depth. Conformance: every model trace up to a depth is replayed through "
     "BasicOptimizer (scripted SciPy driver, evaluator producing the scripted objective/feasibility sequence) and "
     "BasicOptimizer.results must be the model's best; likewise every sequence of rows (objective x feasibility, or a failed "
-    "row) is evaluated by REAL evaluator steps as one batch or split in two steps, with no / maximization / scaling "
+    "row) is evaluated by REAL evaluator steps as one batch or split in two steps, or as one batch requested by a parallel optimizer inside a REAL optimizer step, with no / maximization / scaling "
     "transforms, followed by real best and last trackers. Reference: list of feasible, non-NaN, tracked function results; "
     "best = minimum optimizer-domain objective (ties: any tied result), last = most recent. A state is trivial when the "
     "history contains no valid result (the tracker may then hold nothing or a NaN result)."
@@ -375,7 +375,7 @@ def run_basic(trace: list[tuple[str, str]], tname: str) -> Judgement:
 STEP_ALPHABET = [(o, f) for o in ("0", "1", "2") for f in ("ok", "nonlinear")] + [("failed", "ok")]
 
 
-def run_steps(rows: list[tuple[str, str]], tname: str, split: bool) -> Judgement:
+def run_steps(rows: list[tuple[str, str]], tname: str, split: Any) -> Judgement:
     """The rows are evaluated by REAL evaluator steps (one batch, or the first row alone and the rest as a batch); real
     'best' and 'last' trackers follow the step; events, transforms and result pairing are all the implementation's."""
     from ropt.plan import OptimizerContext, Plan
@@ -401,14 +401,21 @@ def run_steps(rows: list[tuple[str, str]], tname: str, split: bool) -> Judgement
     manager, _ = make_manager()
     context = OptimizerContext(evaluator=TableEvaluator(fn, 1, 1), plugin_manager=manager)
     plan = Plan(context)
-    step = plan.add_step("evaluator")
+    batch_by_optimizer = split == "optimizer-batch"
+    step = plan.add_step("optimizer" if batch_by_optimizer else "evaluator")
     best = plan.add_handler("tracker", what="best", sources={step})
     last = plan.add_handler("tracker", what="last", sources={step})
     xs = np.array([[float(k + 1)] for k in range(len(rows))])
-    groups = [xs] if not split or len(rows) < 2 else [xs[:1], xs[1:]]
+    groups = [xs] if batch_by_optimizer or not split or len(rows) < 2 else [xs[:1], xs[1:]]
     try:
         for group in groups:
-            plan.run_step(step, config=config, transforms=transforms, variables=group if group.shape[0] > 1 else group[0])
+            if batch_by_optimizer:
+                # the rows as ONE batch requested by a (NaN tolerant, parallel) optimizer inside an optimizer step
+                cfg = {**config, "optimizer": {"method": "verif/scripted", "parallel": True,
+                                               "options": {"script": [[group.tolist(), True, False]], "allow_nan": True, "parallel": True}}}
+                plan.run_step(step, config=cfg, transforms=transforms)
+            else:
+                plan.run_step(step, config=config, transforms=transforms, variables=group if group.shape[0] > 1 else group[0])
     except Exception as exc:  # noqa: BLE001
         j.fail(f"steps-raised:{type(exc).__name__}", rows=rows, transforms=tname, message=str(exc)[:200])
         return j
@@ -485,7 +492,7 @@ def run_shard(shard: dict[str, Any]) -> core.ShardResult:
         first = STEP_ALPHABET[shard["first"]]
         for rest in itertools.chain.from_iterable(itertools.product(STEP_ALPHABET, repeat=n) for n in range(shard["len"])):
             rows = [first, *rest]
-            for split in (False, True):
+            for split in (False, True, "optimizer-batch"):
                 if split and len(rows) < 2:
                     continue
                 j = run_steps(rows, tname, split)
